@@ -169,3 +169,13 @@ PROPS["C12"] = {
     "rule": "seeded: ~2500 constructor cases quick (40000 thorough) x up to 10 calls each, 16 driver processes; datetimes cross the process boundary as (local fields | unix timestamp, zone key). The one constructor combination the documentation does not settle (timezone + coords + auto_timezone=False: are coordinates kept for sun events?) is judged on expressions without events only; a datetime comparison abstains (counted) when Python's tzdata and chrono-tz disagree on the offset of that local time. Non-trivial = object built and called; distinct by hash of the constructor arguments.",
     "assumptions": ["the Rust core is the reference (decided by C01-C11)", "pyo3's datetime conversions are part of what is observed", "system tzdata vs chrono-tz differences are abstained on"],
 }
+
+import c04 as _c04
+
+PROPS["C04"] = {
+    "special": _c04.special,
+    "technique": "hostile-input monitor: catch_unwind around every public call plus logical step budgets counted by hook H1 (bounded work decided on steps, not time); two build profiles; thorough adds libFuzzer+ASan",
+    "level_text": "Three hostile string sources (token-level mutation of rendered sentences and of the suite's 204 sample lines with a dictionary of known troublemakers, single-field numeric corruptions, random Unicode) go through parse; everything that parses is printed, normalized (paving operations counted against a polynomial budget) and evaluated - schedule_at, state, is_*, iter_range consumed, next_change - in naive, zoned (zones with gaps and date-line changes) and coordinate-inferred contexts (poles, antimeridian), with and without interval-size bounds, at instants from years -262000..262000. A panic is a violation; so is a call that takes more outer day-steps than its window has days, or inner loop ticks out of proportion with the expression's size. Both the checked profile (debug assertions, overflow checks) and the plain release profile are run. Exploration.",
+    "rule": "seeded strings from 8 rotating sources (rendered sentence; 2x mutated rendered sentence; 2x mutated sample line; digit-run corruption; random Unicode; dictionary triples) x 3 contexts x windows of 0..5000 days; unbounded next_change from arbitrary instants in 0.4% of the evaluated strings (2% thorough) with a budget of (days to 10000-01-01)+3 day-steps. Non-trivial = string parses, or is rejected and non-empty; distinct by hash of the string.",
+    "assumptions": ["hook H1 counts every iteration of the evaluator's loops (sites reviewed)", "the wall-clock watchdog only makes a run inconclusive", "the Feb-29 scan and offset windows are linear in years by design; budgets account for them"],
+}
